@@ -52,9 +52,35 @@ class Ctx:
 
     def feasible(self, extra):
         self.nfeas += 1
+        if smt.INPROC:
+            # linear / integer mode: keep the z3 model as a witness of the path so that later decisions can be
+            # evaluated under it (halves the number of queries)
+            s = z3.Solver()
+            s.set('timeout', int(self.feas_timeout * 1000))
+            s.add(*smt.prune_aux(self.assumptions() + [extra]))
+            smt.STATS.queries += 1
+            r = s.check()
+            smt.STATS.by_result[str(r) if str(r) in smt.STATS.by_result else 'unknown'] += 1
+            self._last_model = s.model() if r == z3.sat else None
+            return r != z3.unsat
         st, _, _ = smt.solve(self.assumptions() + [extra], timeout_s=self.feas_timeout,
                              cvc5_timeout_s=0, want_model=False)
+        self._last_model = None
         return st != 'unsat'
+
+    def _eval_witness(self, cond):
+        m = getattr(self, 'witness', None)
+        if m is None:
+            return None
+        try:
+            v = m.eval(cond, model_completion=True)
+        except Exception:
+            return None
+        if z3.is_true(v):
+            return True
+        if z3.is_false(v):
+            return False
+        return None
 
     def entails(self, formula, timeout=None):
         st, _, _ = smt.solve(self.assumptions() + [z3.Not(formula)],
@@ -81,15 +107,30 @@ class Ctx:
                 else:
                     raise EngineError('undetermined branch outside explorer: %s' % str(cond)[:200])
             else:
-                ft = self.feasible(cond)
-                ff = self.feasible(z3.Not(cond))
+                w = self._eval_witness(cond) if smt.INPROC else None
+                if w is None:
+                    ft = self.feasible(cond)
+                    mt = getattr(self, '_last_model', None)
+                    ff = self.feasible(z3.Not(cond))
+                    mf = getattr(self, '_last_model', None)
+                elif w:
+                    ft, mt = True, self.witness
+                    ff = self.feasible(z3.Not(cond))
+                    mf = getattr(self, '_last_model', None)
+                else:
+                    ff, mf = True, self.witness
+                    ft = self.feasible(cond)
+                    mt = getattr(self, '_last_model', None)
                 if ft and ff:
-                    self.work.append(self.trace + [False])
+                    self.work.append((self.trace + [False], mf))
                     d = True
+                    self.witness = mt
                 elif ft:
                     d = True
+                    self.witness = mt
                 elif ff:
                     d = False
+                    self.witness = mf
                 else:
                     raise Abort()
         self.pos += 1
@@ -107,7 +148,7 @@ class Ctx:
         """run fn() once per feasible path.  returns (leaves, exhaustive).
         leaf = dict(trace, pc, result | exception)"""
         self.exploring = True
-        self.work = [[]]
+        self.work = [([], None)]
         leaves = []
         t0 = time.time()
         exhaustive = True
@@ -116,7 +157,7 @@ class Ctx:
                 if len(leaves) >= max_paths or (max_seconds and time.time() - t0 > max_seconds):
                     exhaustive = False
                     break
-                self.prefix = self.work.pop()
+                self.prefix, self.witness = self.work.pop()
                 self.pos = 0
                 self.trace = []
                 self.pc = []
